@@ -56,15 +56,17 @@ def obligations(tier):
     return [
         Obl("lost_wakeup", "wake.c", grid=[{"K": k, "NINJ": n} for (k, n) in ks],
             defines=dict(common["defines"], MODE=0), std_checks=False,
+            progs=[Prog("qmail-send.c", main_as="send_main", cut=[c for c in CUT if c != "reread"] + ["regetcontrols"])],
+            sysrename=SYS + ["sleep"],
             unwind=lambda p: {"send_main~while (!flagexitasap": p["K"] + 2}, unwind_default=20, timeout=900,
             assumes=["clock stands still (periodic rescan disabled); K select() calls; NINJ injectors, one entry each; "
-                     "open_read(lock/trigger) never fails"],
+                     "open_read(lock/trigger) never fails; a HUP may interrupt any select() (real sighup() and reread(), regetcontrols cut)"],
             outside=["more than K daemon iterations / NINJ injectors", "HASNAMEDPIPEBUG1 variant (not compiled here)",
                      "kernels whose FIFO semantics differ from the model"],
             claim="for every interleaving at system-call granularity of NINJ injectors with K iterations of the daemon loop: "
                   "whenever the daemon blocks, every published todo entry has been seen or the trigger descriptor is readable",
-            expect_witnesses=["sleeps_with_nothing_to_do", "entry_seen_after_wakeup", "entry_seen_by_startup_scan"],
-            **{k: v for k, v in common.items() if k != "defines"}),
+            expect_witnesses=["sleeps_with_nothing_to_do", "entry_seen_after_wakeup", "entry_seen_by_startup_scan", "sleeps_after_hup"],
+            **{k: v for k, v in common.items() if k not in ("defines", "progs", "sysrename")}),
         Obl("select_timeout", "wake.c", grid=[{"K": 3}] if tier == "quick" else [{"K": 3}, {"K": 5}],
             defines=dict(common["defines"], MODE=1, NINJ=1),
             unwind=lambda p: {"send_main~while (!flagexitasap": p["K"] + 2}, unwind_default=20, timeout=900,
